@@ -88,7 +88,10 @@ def probe_flags(binp, cdir):
         if rc == 0:
             p = common.sh(["go", "build", "./v%d" % i], cwd=pdir, timeout=300)
             ok, err = p.returncode == 0, p.stderr
-        detail["info:" + name] = {"goderive_rc": rc, "compiles": ok, "still_present": not ok,
+        # exit 1 = goderive now rejects the signature (repaired by rejection); a panic (exit 2) or an exit 0
+        # with a file that does not compile means the defect is still there
+        detail["info:" + name] = {"goderive_rc": rc, "compiles": ok, "rejected": rc == 1,
+                                  "still_present": (rc == 0 and not ok) or rc not in (0, 1),
                                   "first_error": [l for l in (err or "").strip().splitlines() if l.strip()][:2]}
     return digits, detail
 
@@ -346,9 +349,49 @@ def proof_part(rep, prop):
     return ok
 
 
+# which theorems speak about the probed model variant: flag name -> (theorems that apply when the flag is
+# fixed, theorems that apply (with their side condition) when it is not)
+APPLICABLE = {
+    "C15": [
+        (("unnamedFixed", "shadowFixed"), ["curry_spec_fixed", "flip_spec_fixed", "apply_spec_fixed", "uncurry_curry_fixed"],
+         ["curry_spec_partial", "flip_spec_partial", "apply_spec_partial", "uncurry_curry_partial",
+          "curry_full_fails", "flip_full_fails", "apply_full_fails"]),
+        (("unnamedFixed", "shadowFixed", "voidFixed"), ["plumb_compiles_fixed"],
+         ["curry_compiles_partial", "flip_compiles_partial", "apply_compiles_partial", "curry_witnesses"]),
+        (("unnamedFixed", "shadowFixed", "crossFixed"), ["uncurry_spec_fixed"],
+         ["uncurry_spec_partial", "uncurry_compiles_partial", "uncurry_full_fails"]),
+    ],
+    "C16": [
+        (("zeroFixed", "lhsFixed"), ["compose_compiles_fixed", "zero_ok_repaired"],
+         ["compose_compiles_partial", "zero_ok", "zero_witnesses", "compose_lhs_witness", "fmap_join_zero_witness"]),
+        (("unnamedFixed", "shadowFixed"), ["toerror_compiles_partial (side condition empty)"],
+         ["toerror_compiles_partial", "toerror_witnesses"]),
+    ],
+}
+ALWAYS = {
+    "C15": ["rename_distinct", "tuple_spec"],
+    "C16": ["compose_spec", "compose_no_failure", "compose_first_failure", "compose_calls_in_order", "traverse_spec",
+            "fmapE_spec", "fmapE_fn_spec", "fmapE_fn_evaluates_nothing", "join_of_fmap_fn", "joinE_spec", "bindE_spec",
+            "toerror_spec"],
+}
+
+
+def applicable_theorems(prop, probe):
+    out = {"unconditional": ALWAYS[prop], "full_strength_for_probed_variant": [], "with_side_condition_for_probed_variant": []}
+    for flags, fixed, partial in APPLICABLE[prop]:
+        if all(probe.get(f, {}).get("fixed") for f in flags):
+            out["full_strength_for_probed_variant"] += fixed
+        else:
+            out["with_side_condition_for_probed_variant"] += partial
+            out.setdefault("flags_not_fixed", [])
+            out["flags_not_fixed"] += [f for f in flags if not probe.get(f, {}).get("fixed") and f not in out["flags_not_fixed"]]
+    return out
+
+
 def run_family(rep, prop, plugins, opnames, only_pkg=None):
     proof_part(rep, prop)
     info = prepare(rep.tier, rep.seed, plugins)
+    rep.cov["applicable_theorems"] = applicable_theorems(prop, info["probe"])
     rep.cov["corpus"] = info["stats"]
     rep.cov["timing"] = {"goderive_s": info.get("goderive_s"), "compile_s": info.get("compile_s")}
     compare(rep, info, prop, opnames, only_pkg)
@@ -375,7 +418,9 @@ def run(rep):
                        "(named, all blank, mixed blank, unnamed, `f` first/middle/last, param_<i> with and without a blank, other "
                        "generator names, blank+f; 11 outer/inner schemes for uncurry) x 0..3 results, one package per (class, "
                        "combinator in curry/flip/apply/uncurry.curry/uncurry/tuple); per package 1 build op + 4 random argument "
-                       "vectors (payload 0 = zero value). distinct_nontrivial = distinct (combinator, signature, argument vector) "
+                       "vectors (payload 0 = zero value); every returned function is observed at three moments: the call log "
+                       "after building it and all partial applications (must be empty), and two invocations (same outcome, one "
+                       "call of f each). distinct_nontrivial = distinct (combinator, signature, argument vector) "
                        "ops that were executed on a wrapper that compiled (call log and results compared)")
     rep.assumptions += [
         "values are abstract payloads: the wrappers are parametric in their arguments, only positions and identity are observed",
